@@ -9,6 +9,11 @@ def run(ctx):
     vlib.model_check(ctx, "mc/MC_Positions.tla", "mc/MC_Positions_thorough.cfg" if th else "mc/MC_Positions_quick.cfg", workers=6, timeout=900)
     # which lines the plain report prints, in how many groups (Merger.tla; beyond the statement of C16)
     vlib.model_check(ctx, "mc/MC_Merger.tla", "mc/MC_Merger_thorough.cfg" if th else "mc/MC_Merger.cfg", workers=6, timeout=1800, keep_vec=False)
+    # the machine exactly as the code has it (the end line does not move on a merge) prints shared lines twice: the
+    # model must show that (a finding outside the listed properties, DESIGN 11.5)
+    w = vlib.run_tlc(ctx, "mc/MC_Merger.tla", "mc/MC_Merger_witness.cfg", workers=2, timeout=600, keep_vec=False)
+    if w.violated != "Same":
+        raise vlib.ToolError("MC_Merger_witness: the merger as coded no longer violates the statement - update Merger.tla (asCode) and DESIGN 11.5")
     rec = ctx.path("c16-records.ndjson")
     summ = vlib.agv_ok(ctx, ["drive", "c16", "--corpus", vlib.CORPUS, "--seed", ctx.seed, "--tier", ctx.tier, "--out", rec], timeout=3000)
     n, fails = vlib.validate_trace(ctx, "trace/Trace_C16.tla", "trace/Trace_C16.cfg", rec, timeout=3000)
